@@ -113,7 +113,7 @@ func idKinds() []idKind {
 		hashKind[rhp3.Account]("rhp3.Account", "ed25519:"),
 		hashKind[rhp4.Account]("rhp4.Account", "ed25519:"),
 		{name: "types.Signature", size: 64,
-			parsers: []parser{textParser[types.Signature](), jsonParser[types.Signature]()},
+			parsers:   []parser{textParser[types.Signature](), jsonParser[types.Signature]()},
 			canonical: textPrinter(func(b []byte) types.Signature { var s types.Signature; copy(s[:], b); return s })},
 		{name: "rhp3.SettingsID", size: 16,
 			parsers: []parser{
